@@ -231,3 +231,23 @@ def enc_sel(sel):
     if isinstance(sel, int):
         return {'idx': sel}
     return {'names': list(sel)}
+
+
+def shared_between_resources(descriptor):
+    """mutable objects (dict / list) reachable from the descriptors of two different resources: [(path_a, path_b)]"""
+    seen = {}
+    out = []
+
+    def walk(obj, res_index, path):
+        if isinstance(obj, (dict, list)):
+            key = id(obj)
+            if key in seen and seen[key][0] != res_index:
+                out.append((seen[key][1], path))
+                return
+            seen.setdefault(key, (res_index, path))
+            items = obj.items() if isinstance(obj, dict) else enumerate(obj)
+            for k, v in items:
+                walk(v, res_index, '%s/%s' % (path, k))
+    for i, r in enumerate(descriptor.get('resources', [])):
+        walk(r, i, 'resources/%d' % i)
+    return out
